@@ -104,11 +104,17 @@ def body(run):
             configs.append(dict(driver='GTiff', dtype=dt, creation_options=co))
     configs.append(dict(driver='PNG', dtype='uint8', creation_options=dict()))
     configs.append(dict(driver='PNG', dtype='uint16', creation_options=dict()))
-    for k in range(run.scale(5, 40)):
-        nbands = rng.choice([1, 3])
-        g, pair, mbm, nblk = fz.workable_pair(run.work, rng, lambda r: synth.random_geom(r, 30), (3, 3), 4, tag='e', bands=nbands,
-                                              smask=None)
-        pair = fz.make_pair(run.work, g, rng, bands=nbands, smask=fz.src_mask(rng, g.src_shape, 'holes'), tag='e')
+    # drivers whose files are not pre-filled with nodata (a block that is never written reads back as 0): every invalid pixel must still carry nodata
+    sparse_cfgs = [dict(driver='ENVI', dtype='int16', creation_options=dict(), nodata=-32768), dict(driver='ENVI', dtype='float32', creation_options=dict(), nodata=-9999.0),
+                   dict(driver='ENVI', dtype='uint8', creation_options=dict(), nodata=255), dict(driver='GTiff', dtype='uint16', creation_options=None, nodata=65535),
+                   dict(driver='GTiff', dtype='uint8', creation_options=dict(tiled=True, blockxsize=16, blockysize=16), nodata=255)]
+    n_main = run.scale(5, 40)
+    for k in range(n_main + run.scale(2, 10)):
+        sparse = k >= n_main
+        nbands = rng.choice([1, 3]) if not sparse else 1
+        g, pair, mbm, nblk = fz.workable_pair(run.work, rng, lambda r: synth.random_geom(r, 30) if not sparse else synth.aligned_geom(r, 40), (3, 3),
+                                              4 if not sparse else 12, tag='e', bands=nbands, smask=None)
+        pair = fz.make_pair(run.work, g, rng, bands=nbands, smask=fz.src_mask(rng, g.src_shape, 'holes' if not sparse else 'empty-side'), tag='e')
         model = ik.MODELS[k % 3]
         scale = rng.choice([1.0, 3.0, 400.0, -1.0])       # push values over integer ranges / below zero
         ref = pair['ref'] * np.float32(scale)
@@ -119,19 +125,19 @@ def body(run):
         kw = dict(model=model, kernel_shape=(3, 3), max_block_mem=mbm, param=with_param)
         base = fz.fuse(pair['src_fn'], pair['ref_fn'], run.work / 'f32.tif', out_profile=dict(dtype='float32', nodata=NAN), **kw)
         fa, fm = base['corr']['array'], base['corr']['mask']
-        for cfg in rng.sample(configs, run.scale(7, 14)):
+        for cfg in (rng.sample(configs, run.scale(7, 14)) if not sparse else sparse_cfgs):
             dt = cfg['dtype']
-            nodata = nodata_choices(dt, rng)
+            nodata = nodata_choices(dt, rng) if not sparse else cfg['nodata']
             if cfg['driver'] == 'PNG' and nodata is not None:
                 nodata = 0
             prof = dict(driver=cfg['driver'], dtype=dt, nodata=nodata)
             if cfg['creation_options'] is not None:
                 prof['creation_options'] = cfg['creation_options']
-            out_fn = run.work / ('enc_out.png' if cfg['driver'] == 'PNG' else 'enc_out.tif')
+            out_fn = run.work / ('enc_out.png' if cfg['driver'] == 'PNG' else 'enc_out.dat' if cfg['driver'] == 'ENVI' else 'enc_out.tif')
             desc = dict(geom=g.describe(), model=model, ref_scale=scale, bands=nbands, out_profile={k2: (None if v is None else v) for k2, v in prof.items()},
                         blocks=nblk)
             try:
-                res = fz.fuse(pair['src_fn'], pair['ref_fn'], out_fn, out_profile=prof, **dict(kw, param=with_param and cfg['driver'] != 'PNG'))
+                res = fz.fuse(pair['src_fn'], pair['ref_fn'], out_fn, out_profile=prof, **dict(kw, param=with_param and cfg['driver'] == 'GTiff'))
             except Exception as ex:
                 run.add_violation('fusion failed for a supported output profile', desc, observed=f'{type(ex).__name__}: {str(ex)[:200]}',
                                   signature=dict(kind='dtype-profile-error', driver=cfg['driver'], dtype=dt))
